@@ -114,7 +114,11 @@ def judge(ctx: core.Ctx, case: dict[str, Any]) -> None:
         ctx.count("non_liquid_error_forwarded_to_C02")
         return
     bkey = outcome_key(base)
-    U = len(base.value.encode("utf-8")) if base.ok else 64
+    try:
+        U = len(base.value.encode("utf-8")) if base.ok else 64
+    except UnicodeEncodeError:
+        ctx.unspecified("lone-surrogate-in-output-has-no-utf8-size")
+        return
     depth = max([block_depth(case["source"])] + [block_depth(p) for p in case["partials"].values()])
     sweeps = {
         "loop_iteration_limit": used["loop"],
